@@ -307,8 +307,16 @@ def _multiprocessing_iter_unordered(
         yield from map(wrapped_func, iterable)
 
     else:
-        with multiprocessing.Pool(num_processes) as pool:
+        pool = multiprocessing.Pool(num_processes)
+        try:
             yield from pool.imap_unordered(wrapped_func, iterable)
+        finally:
+            # Do not terminate() the pool (which leaving a "with Pool" block
+            # does): if a task raised, other workers are still busy and may be
+            # killed while holding the lock of the result queue, after which
+            # terminate() blocks forever. Let the pool shut down regularly.
+            pool.close()
+            pool.join()
 
 
 def iter_unordered(
